@@ -160,6 +160,107 @@ theorem front_good (b : Bytes) : Good b (front b) := by
           · exact p3 x h
         · refine ⟨by simpa using p1, fun x hx => by have := p2 x hx; omega, by simp⟩
 
+/-! ### encrypted chunks -/
+
+theorem v_ite {P : Verdict → Prop} {c : Prop} [Decidable c] {x y : Verdict} (hx : c → P x) (hy : ¬c → P y) :
+    P (if c then x else y) := by
+  split
+  · exact hx ‹_›
+  · exact hy ‹_›
+
+/-- with the per-field guards in place no index / slice of the encrypted-chunk header is out of
+range, whatever the key store answers. -/
+theorem encFront_no_panic (known : Nat → Bool) (d : Bytes) : encFront known d ≠ .panic := by
+  unfold encFront encFrontG
+  simp only [true_and]
+  refine v_ite (P := (· ≠ .panic)) (fun _ => by decide) (fun h16 => ?_)
+  refine v_ite (P := (· ≠ .panic)) (fun h => by omega) (fun _ => ?_)
+  refine v_ite (P := (· ≠ .panic)) (fun _ => by decide) (fun _ => ?_)
+  refine v_ite (P := (· ≠ .panic)) (fun _ => by decide) (fun g1 => ?_)
+  refine v_ite (P := (· ≠ .panic)) (fun h => absurd h g1) (fun _ => ?_)
+  refine v_ite (P := (· ≠ .panic)) (fun _ => by decide) (fun _ => ?_)
+  refine v_ite (P := (· ≠ .panic)) (fun _ => by decide) (fun g2 => ?_)
+  refine v_ite (P := (· ≠ .panic)) (fun h => by omega) (fun _ => ?_)
+  refine v_ite (P := (· ≠ .panic)) (fun _ => by decide) (fun _ => ?_)
+  refine v_ite (P := (· ≠ .panic)) (fun _ => by decide) (fun g3 => ?_)
+  refine v_ite (P := (· ≠ .panic)) (fun h => absurd h g3) (fun _ => ?_)
+  refine v_ite (P := (· ≠ .panic)) (fun _ => by decide) (fun g4 => ?_)
+  refine v_ite (P := (· ≠ .panic)) (fun h => by omega) (fun _ => ?_)
+  exact v_ite (P := (· ≠ .panic)) (fun _ => by decide) (fun _ => by decide)
+
+/-- the front end passes only on a complete header: key found, IV size 4 or 8, `11 + iv_size` bytes. -/
+theorem encFront_pass (known : Nat → Bool) (d : Bytes) (h : encFront known d = .pass) :
+    known (leNat (slice d 1 8)) = true ∧ (byteAt d 9 = 4 ∨ byteAt d 9 = 8) ∧ 11 + byteAt d 9 ≤ d.length := by
+  revert h
+  unfold encFront encFrontG
+  simp only [true_and]
+  refine v_ite (P := (· = .pass → _)) (fun _ h => by cases h) (fun h16 => ?_)
+  refine v_ite (P := (· = .pass → _)) (fun _ h => by cases h) (fun _ => ?_)
+  refine v_ite (P := (· = .pass → _)) (fun _ h => by cases h) (fun _ => ?_)
+  refine v_ite (P := (· = .pass → _)) (fun _ h => by cases h) (fun g1 => ?_)
+  refine v_ite (P := (· = .pass → _)) (fun _ h => by cases h) (fun _ => ?_)
+  refine v_ite (P := (· = .pass → _)) (fun _ h => by cases h) (fun hk => ?_)
+  refine v_ite (P := (· = .pass → _)) (fun _ h => by cases h) (fun g2 => ?_)
+  refine v_ite (P := (· = .pass → _)) (fun _ h => by cases h) (fun _ => ?_)
+  refine v_ite (P := (· = .pass → _)) (fun _ h => by cases h) (fun hiv => ?_)
+  refine v_ite (P := (· = .pass → _)) (fun _ h => by cases h) (fun g3 => ?_)
+  refine v_ite (P := (· = .pass → _)) (fun _ h => by cases h) (fun _ => ?_)
+  refine v_ite (P := (· = .pass → _)) (fun _ h => by cases h) (fun g4 => ?_)
+  refine v_ite (P := (· = .pass → _)) (fun _ h => by cases h) (fun _ => ?_)
+  refine v_ite (P := (· = .pass → _)) (fun _ h => by cases h) (fun _ _ => ?_)
+  refine ⟨by simpa using hk, by omega, by omega⟩
+
+/-- with no matching key in the store, the same header code WITHOUT its per-field guards cannot
+panic either: the missing guards are invisible to every input whose key name is not found. -/
+theorem encFrontG_unknown_key_hides (g : Bool) (d : Bytes) : encFrontG g (fun _ => false) d ≠ .panic := by
+  unfold encFrontG
+  refine v_ite (P := (· ≠ .panic)) (fun _ => by decide) (fun h16 => ?_)
+  refine v_ite (P := (· ≠ .panic)) (fun h => by omega) (fun _ => ?_)
+  refine v_ite (P := (· ≠ .panic)) (fun _ => by decide) (fun _ => ?_)
+  refine v_ite (P := (· ≠ .panic)) (fun _ => by decide) (fun _ => ?_)
+  refine v_ite (P := (· ≠ .panic)) (fun h => by omega) (fun _ => ?_)
+  exact v_ite (P := (· ≠ .panic)) (fun _ => by decide) (fun h => absurd rfl h)
+
+theorem firstStop_mem (vs : List Verdict) : firstStop vs = .pass ∨ firstStop vs ∈ vs := by
+  induction vs with
+  | nil => left; rfl
+  | cons v vs ih =>
+    cases v
+    · right; simp [firstStop]
+    · right; simp [firstStop]
+    · rcases ih with h | h
+      · left; simpa [firstStop] using h
+      · right; simp only [firstStop]; exact List.mem_cons_of_mem _ h
+
+theorem frontKeys_spec (known : Nat → Bool) (b : Bytes) :
+    (frontKeys known b).verdict ≠ .panic ∧ (frontKeys known b).allocs = (front b).allocs ∧
+    (frontKeys known b).capped = (front b).capped := by
+  have h0 := (front_good b).1
+  unfold frontKeys
+  dsimp only
+  split
+  · exact ⟨h0, rfl, rfl⟩
+  · split
+    · split
+      · split
+        · exact ⟨by simp, rfl, rfl⟩
+        · exact ⟨h0, rfl, rfl⟩
+      · exact ⟨h0, rfl, rfl⟩
+    · split
+      · exact ⟨h0, rfl, rfl⟩
+      · split
+        · exact ⟨h0, rfl, rfl⟩
+        · rename_i infos rest _
+          refine ⟨?_, rfl, rfl⟩
+          dsimp only
+          rcases firstStop_mem ((encChunks infos rest).map (encFront known)) with h | h
+          · rw [h]; simp
+          · intro hp
+            rw [hp] at h
+            simp only [List.mem_map] at h
+            obtain ⟨p, _, hp2⟩ := h
+            exact encFront_no_panic known p hp2
+
 end Blte
 
 /-! ## Encoding -/
